@@ -82,7 +82,28 @@ def run_both(f, L, D):
     return res
 
 
-def diff_canon(a, b):
+# reductions whose floating-point result depends on the order of the operations (the lazy stack
+# reduces member by member / over a differently laid out buffer): compared up to rounding
+ROUNDING_OPS = ("prod", "mean", "sum")
+
+
+def _close(x, y, tol):
+    if x == y:
+        return True
+    if not tol or len(x) != len(y):
+        return False
+    for u, w in zip(x, y):
+        if u == w:
+            continue
+        if not (isinstance(u, float) and isinstance(w, float)):
+            return False
+        if not abs(u - w) <= tol * max(abs(u), abs(w), 1.0):
+            return False
+    return True
+
+
+def diff_canon(a, b, tol=0.0):
+    """`tol`: relative tolerance on float values, for ROUNDING_OPS only"""
     if a == b:
         return None
     if a[0] == "empty" and b[0] in ("td", "empty"):
@@ -93,9 +114,13 @@ def diff_canon(a, b):
         if len(a) != len(b):
             return f"sequence length {len(a) - 1} vs {len(b) - 1}"
         for i, (x, y) in enumerate(zip(a[1:], b[1:])):
-            d = diff_canon(x, y)
+            d = diff_canon(x, y, tol)
             if d:
                 return f"item {i}: {d}"
+        return None
+    if a[0] == "t" and tol:
+        if a[1] == b[1] and _close(a[2], b[2], tol):
+            return None
     if a[0] == "td":
         if a[1] != b[1]:
             return f"batch_size {a[1]} vs {b[1]}"
@@ -105,8 +130,9 @@ def diff_canon(a, b):
         for x, y in zip(a[2:], b[2:]):
             if x[1] != y[1]:
                 return f"shape of {x[0]}: {x[1]} vs {y[1]}"
-            if x[2] != y[2]:
+            if not _close(x[2], y[2], tol):
                 return f"values of {x[0]}: {x[2][:10]} vs {y[2][:10]}"
+        return None
     return f"{str(a)[:120]} vs {str(b)[:120]}"
 
 
@@ -396,7 +422,7 @@ def read_ops_stream(run, n_cases):
         run.count("ops.kind", name)
         run.count("ops.outcome", f"{name}:lazy-{sl}/dense-{sdn}")
         if sl == "ok" and sdn == "ok":
-            d = diff_canon(rl, rd)
+            d = diff_canon(rl, rd, 1e-5 if name in ROUNDING_OPS else 0.0)
             if d is None:
                 run.oracle_ok("op:" + name)
             else:
@@ -1242,8 +1268,9 @@ def stack_of_stacks_stream(run, n_cases):
             if isinstance(f, tuple):
                 f = lambda x: x == x  # noqa: E731
             (sl, rl), (sdn, rd) = run_both(f, L, D)
-            if sl == "ok" and sdn == "ok" and diff_canon(rl, rd):
-                run.oracle_fail("stack_of_stacks", case, f"{name}{tuple(args)} differs: {diff_canon(rl, rd)}", f"sos:op:{name}")
+            tol = 1e-5 if name in ROUNDING_OPS else 0.0
+            if sl == "ok" and sdn == "ok" and diff_canon(rl, rd, tol):
+                run.oracle_fail("stack_of_stacks", case, f"{name}{tuple(args)} differs: {diff_canon(rl, rd, tol)}", f"sos:op:{name}")
             else:
                 run.oracle_ok("stack_of_stacks:" + sl)
         elif what == "mut":
